@@ -272,6 +272,370 @@ impl Line {
 //@ end
 }
 
+// ---------------- file classification ----------------
+//@ extract src/distinfo.rs : enum EntryType
+//@ rewrite D12.drop_default_attr
+#[derive(Debug, Eq, Hash, PartialEq)]
+pub enum EntryType {
+    Distfile,
+    Patchfile,
+}
+//@ end
+impl Clone for EntryType {
+    fn clone(&self) -> (r: Self) ensures r == *self { match self { EntryType::Distfile => EntryType::Distfile, EntryType::Patchfile => EntryType::Patchfile } }
+}
+impl Default for EntryType { fn default() -> (r: Self) ensures r == EntryType::Distfile { EntryType::Distfile } }
+
+/// statement of C11's classification, over the (lossily decoded) file name: patch-* and emul-*-patch-*,
+/// except patch-local-*, *.orig, *.rej, *~ and names containing ".tar."
+pub open spec fn is_patch_text(t: Seq<char>) -> bool {
+    !("patch-local-"@.is_prefix_of(t) || is_suffix(".orig"@, t) || is_suffix(".rej"@, t) || is_suffix("~"@, t))
+    && ("patch-"@.is_prefix_of(t) || ("emul-"@.is_prefix_of(t) && has_sub(t.skip("emul-"@.len() as int), "-patch-"@)))
+    && !has_sub(t, ".tar."@)
+}
+pub open spec fn class_of(b: Seq<u8>) -> EntryType {
+    match fname(b) { Some(n) => if is_patch_text(lossy(n)) { EntryType::Patchfile } else { EntryType::Distfile }, None => EntryType::Distfile }
+}
+impl EntryType {
+//@ extract src/distinfo.rs : impl From<P> for EntryType fn from
+//@ rewrite D9.generic_path_param D6.path_file_name D6.os_to_string_lossy D6.s_starts_with D6.s_ends_with D6.s_strip_prefix_contains D6.s_contains
+    fn from(path: P) -> (r: Self)
+        ensures r == class_of(pab(path))
+    {
+        let Some(p) = path.as_ref().file_name() else {
+            return EntryType::Distfile;
+        };
+        let s = p.to_string_lossy();
+        if s.starts_with("patch-local-")
+            || s.ends_with(".orig")
+            || s.ends_with(".rej")
+            || s.ends_with("~")
+        {
+            return EntryType::Distfile;
+        }
+        if s.starts_with("patch-")
+            || s.strip_prefix("emul-")
+                .is_some_and(|rest| rest.contains("-patch-"))
+        {
+            if !s.contains(".tar.") {
+                return EntryType::Patchfile;
+            }
+        }
+
+        EntryType::Distfile
+    }
+//@ end
+}
+
+// ---------------- entries and the two insertion-ordered maps ----------------
+//@ extract src/distinfo.rs : struct Checksum
+pub struct Checksum {
+    pub digest: Digest,
+    pub hash: String,
+}
+//@ end
+//@ extract src/distinfo.rs : struct Entry
+pub struct Entry {
+    pub filename: PathBuf,
+    pub filepath: PathBuf,
+    pub size: Option<u64>,
+    pub checksums: Vec<Checksum>,
+    pub filetype: EntryType,
+}
+//@ end
+// D12: derive(Default) written out
+impl Default for Entry {
+    fn default() -> (r: Entry)
+        ensures pbb(&r.filename).len() == 0, pbb(&r.filepath).len() == 0, r.size is None, r.checksums@.len() == 0, r.filetype == EntryType::Distfile
+    { Entry { filename: PathBuf::new(), filepath: PathBuf::new(), size: None, checksums: Vec::new(), filetype: EntryType::Distfile } }
+}
+pub struct EntryV { pub name: Seq<u8>, pub size: Option<int>, pub sums: Seq<(Digest, Seq<char>)>, pub ftype: EntryType }
+pub open spec fn sums_v(c: Seq<Checksum>) -> Seq<(Digest, Seq<char>)> { Seq::new(c.len(), |i: int| (c[i].digest, c[i].hash@)) }
+pub open spec fn entry_v(e: Entry) -> EntryV {
+    EntryV { name: pbb(&e.filename), size: match e.size { Some(n) => Some(n as int), None => None }, sums: sums_v(e.checksums@), ftype: e.filetype }
+}
+
+/// std::path equality of keys (component-wise: repeated '/' and '.' components are not significant): an uninterpreted normal form
+pub uninterp spec fn pkey(b: Seq<u8>) -> Seq<u8>;
+/// index of the entry stored under a key path-equal to k, or -1
+pub open spec fn find_key(m: Seq<(Seq<u8>, Entry)>, k: Seq<u8>) -> int decreases m.len() {
+    if m.len() == 0 { -1 } else if pkey(m[0].0) == pkey(k) { 0 } else { let r = find_key(m.skip(1), k); if r < 0 { -1 } else { r + 1 } }
+}
+pub proof fn lemma_find_key(m: Seq<(Seq<u8>, Entry)>, k: Seq<u8>)
+    ensures -1 <= find_key(m, k) < m.len(), find_key(m, k) >= 0 ==> pkey(m[find_key(m, k)].0) == pkey(k),
+        forall|i: int| 0 <= i < m.len() && (find_key(m, k) < 0 || i < find_key(m, k)) ==> pkey(m[i].0) != pkey(k),
+    decreases m.len()
+{
+    if m.len() > 0 && pkey(m[0].0) != pkey(k) {
+        lemma_find_key(m.skip(1), k);
+        let t = m.skip(1);
+        assert forall|i: int| 0 <= i < m.len() && (find_key(m, k) < 0 || i < find_key(m, k)) implies pkey(m[i].0) != pkey(k) by { if i > 0 { assert(m[i] == t[i - 1]); } }
+    }
+}
+// D10: the indexmap crate as an opaque dependency: an insertion-ordered map keyed by path equality
+pub mod indexmap {
+    use vstd::prelude::*;
+    use std::path::{Path, PathBuf};
+    use super::{Entry, find_key, pbb, pab};
+    verus!{
+    #[verifier::external_body]
+    #[verifier::reject_recursive_types(K)]
+    #[verifier::reject_recursive_types(V)]
+    pub struct IndexMap<K, V> { _k: core::marker::PhantomData<(K, V)> }
+    impl IndexMap<PathBuf, Entry> {
+        /// (key bytes as first inserted, value) in insertion order
+        pub uninterp spec fn view(&self) -> Seq<(Seq<u8>, Entry)>;
+        #[verifier::external_body]
+        pub fn new() -> (r: Self) ensures r.view().len() == 0 { unimplemented!() }
+        #[verifier::external_body]
+        pub fn get_mut(&mut self, key: &Path) -> (r: Option<&mut Entry>)
+            ensures (match r {
+                Some(e) => find_key(old(self).view(), pab(key)) >= 0 && *e == old(self).view()[find_key(old(self).view(), pab(key))].1
+                    && final(self).view() == old(self).view().update(find_key(old(self).view(), pab(key)),
+                        (old(self).view()[find_key(old(self).view(), pab(key))].0, *final(e))),
+                None => find_key(old(self).view(), pab(key)) < 0 && final(self).view() == old(self).view(),
+            })
+        { unimplemented!() }
+        #[verifier::external_body]
+        pub fn get(&self, key: &Path) -> (r: Option<&Entry>)
+            ensures (match r {
+                Some(e) => find_key(self.view(), pab(key)) >= 0 && *e == self.view()[find_key(self.view(), pab(key))].1,
+                None => find_key(self.view(), pab(key)) < 0,
+            })
+        { unimplemented!() }
+        /// insert: an existing (path-equal) key keeps its position and its stored key, only the value is replaced; a new key is appended
+        #[verifier::external_body]
+        pub fn insert(&mut self, key: PathBuf, value: Entry) -> (r: Option<Entry>)
+            ensures (if find_key(old(self).view(), pbb(&key)) >= 0 {
+                    r == Some(old(self).view()[find_key(old(self).view(), pbb(&key))].1)
+                    && final(self).view() == old(self).view().update(find_key(old(self).view(), pbb(&key)), (old(self).view()[find_key(old(self).view(), pbb(&key))].0, value))
+                } else { r is None && final(self).view() == old(self).view().push((pbb(&key), value)) })
+        { unimplemented!() }
+    }
+    }
+}
+use indexmap::IndexMap;
+
+//@ extract src/distinfo.rs : struct Distinfo
+pub struct Distinfo {
+    rcsid: Option<OsString>,
+    distfiles: IndexMap<PathBuf, Entry>,
+    patchfiles: IndexMap<PathBuf, Entry>,
+}
+//@ end
+impl Default for Distinfo {
+    fn default() -> (r: Distinfo) ensures r.wf(), r.dv() == dv_empty()
+    {
+        let r = Distinfo { rcsid: None, distfiles: IndexMap::new(), patchfiles: IndexMap::new() };
+        proof { assert(evs(r.distfiles.view()) =~= Seq::<EntryV>::empty()); assert(evs(r.patchfiles.view()) =~= Seq::<EntryV>::empty()); }
+        r
+    }
+}
+pub struct DistinfoV { pub rcsid: Option<Seq<u8>>, pub dist: Seq<EntryV>, pub patch: Seq<EntryV> }
+pub open spec fn dv_empty() -> DistinfoV { DistinfoV { rcsid: None, dist: Seq::<EntryV>::empty(), patch: Seq::<EntryV>::empty() } }
+pub open spec fn evs(m: Seq<(Seq<u8>, Entry)>) -> Seq<EntryV> { Seq::new(m.len(), |i: int| entry_v(m[i].1)) }
+/// index of the entry whose *file name* is path-equal to k
+pub open spec fn find_name(m: Seq<EntryV>, k: Seq<u8>) -> int decreases m.len() {
+    if m.len() == 0 { -1 } else if pkey(m[0].name) == pkey(k) { 0 } else { let r = find_name(m.skip(1), k); if r < 0 { -1 } else { r + 1 } }
+}
+/// statement of C11: a recognised Size line sets the size under exactly that name (existing entry keeps its position,
+/// a new name is appended at the end), in the map chosen by the name's classification; nothing else changes
+pub open spec fn upd_size(m: Seq<EntryV>, name: Seq<u8>, n: int, t: EntryType) -> Seq<EntryV> {
+    let i = find_name(m, name);
+    if i >= 0 { m.update(i, EntryV { size: Some(n), ..m[i] }) }
+    else { m.push(EntryV { name: name, size: Some(n), sums: Seq::<(Digest, Seq<char>)>::empty(), ftype: t }) }
+}
+pub open spec fn upd_sum(m: Seq<EntryV>, name: Seq<u8>, d: Digest, h: Seq<char>, t: EntryType) -> Seq<EntryV> {
+    let i = find_name(m, name);
+    if i >= 0 { m.update(i, EntryV { sums: m[i].sums.push((d, h)), ..m[i] }) }
+    else { m.push(EntryV { name: name, size: None, sums: seq![(d, h)], ftype: t }) }
+}
+pub open spec fn step_line(v: DistinfoV, l: LineV) -> DistinfoV {
+    match l {
+        LineV::RcsId(s) => DistinfoV { rcsid: Some(s), ..v },
+        LineV::Size(p, n) => if class_of(p) == EntryType::Patchfile { DistinfoV { patch: upd_size(v.patch, p, n, EntryType::Patchfile), ..v } }
+                             else { DistinfoV { dist: upd_size(v.dist, p, n, EntryType::Distfile), ..v } },
+        LineV::Checksum(d, p, h) => if class_of(p) == EntryType::Patchfile { DistinfoV { patch: upd_sum(v.patch, p, d, h, EntryType::Patchfile), ..v } }
+                             else { DistinfoV { dist: upd_sum(v.dist, p, d, h, EntryType::Distfile), ..v } },
+        LineV::None => v,
+    }
+}
+pub open spec fn fold_dist(pieces: Seq<Seq<u8>>, i: int, v: DistinfoV) -> DistinfoV decreases pieces.len() - i {
+    if i < 0 || i >= pieces.len() { v } else { fold_dist(pieces, i + 1, step_line(v, line_spec(pieces[i]))) }
+}
+/// parsing arbitrary distinfo text
+pub open spec fn parse_distinfo(b: Seq<u8>) -> DistinfoV { fold_dist(split_nl(b), 0, dv_empty()) }
+
+impl Distinfo {
+    pub closed spec fn dv(&self) -> DistinfoV {
+        DistinfoV { rcsid: match self.rcsid { Some(s) => Some(osbs(&s)), None => None }, dist: evs(self.distfiles.view()), patch: evs(self.patchfiles.view()) }
+    }
+    /// representation invariant: every entry is stored under its own file name
+    pub closed spec fn wf(&self) -> bool {
+        (forall|i: int| 0 <= i < self.distfiles.view().len() ==> (#[trigger] self.distfiles.view()[i]).0 == pbb(&self.distfiles.view()[i].1.filename))
+        && (forall|i: int| 0 <= i < self.patchfiles.view().len() ==> (#[trigger] self.patchfiles.view()[i]).0 == pbb(&self.patchfiles.view()[i].1.filename))
+    }
+
+//@ extract src/distinfo.rs : impl Distinfo fn new
+    pub fn new() -> (r: Distinfo)
+        ensures r.wf(), r.dv() == dv_empty()
+    {
+        let di: Distinfo = Default::default();
+        di
+    }
+//@ end
+
+//@ extract src/distinfo.rs : impl Distinfo fn update_size
+//@ rewrite D9.generic_path_param
+    fn update_size<P: AsRef<Path>>(&mut self, path: P, size: u64)
+        requires old(self).wf()
+        ensures final(self).wf(), final(self).dv() == step_line(old(self).dv(), LineV::Size(pab(path), size as int))
+    {
+        let filetype = EntryType::from(path.as_ref());
+        let ghost ft = filetype;
+        let ghost m0 = if ft == EntryType::Patchfile { self.patchfiles.view() } else { self.distfiles.view() };
+        proof { lemma_find_key(m0, pab(path)); lemma_find_name(m0, pab(path)); }
+        let map = match filetype {
+            EntryType::Distfile => &mut self.distfiles,
+            EntryType::Patchfile => &mut self.patchfiles,
+        };
+        match map.get_mut(path.as_ref()) {
+            Some(entry) => entry.size = Some(size),
+            None => {
+                map.insert(
+                    path.as_ref().to_path_buf(),
+                    Entry {
+                        filename: path.as_ref().to_path_buf(),
+                        size: Some(size),
+                        filetype,
+                        ..Default::default()
+                    },
+                );
+            }
+        };
+        proof {
+            let m1 = if ft == EntryType::Patchfile { self.patchfiles.view() } else { self.distfiles.view() };
+            let i = find_key(m0, pab(path));
+            if i >= 0 {
+                assert(m1.len() == m0.len());
+                assert forall|j: int| 0 <= j < m1.len() implies #[trigger] evs(m1)[j] == upd_size(evs(m0), pab(path), size as int, ft)[j] by {
+                    if j == i { assert(entry_v(m1[i].1) == (EntryV { size: Some(size as int), ..entry_v(m0[i].1) })); } else { assert(m1[j] == m0[j]); }
+                }
+            } else {
+                assert(m1 == m0.push(m1[m0.len() as int]));
+                assert forall|j: int| 0 <= j < m1.len() implies #[trigger] evs(m1)[j] == upd_size(evs(m0), pab(path), size as int, ft)[j] by {
+                    if j < m0.len() { assert(m1[j] == m0[j]); }
+                    else { assert(sums_v(m1[j].1.checksums@) =~= Seq::<(Digest, Seq<char>)>::empty()); }
+                }
+            }
+            assert(evs(m1) =~= upd_size(evs(m0), pab(path), size as int, ft));
+        }
+    }
+//@ end
+
+//@ extract src/distinfo.rs : impl Distinfo fn update_checksum
+//@ rewrite D9.generic_path_param
+    fn update_checksum<P: AsRef<Path>>(
+        &mut self,
+        path: P,
+        digest: Digest,
+        hash: String,
+    )
+        requires old(self).wf()
+        ensures final(self).wf(), final(self).dv() == step_line(old(self).dv(), LineV::Checksum(digest, pab(path), hash@))
+    {
+        let filetype = EntryType::from(path.as_ref());
+        let ghost ft = filetype;
+        let ghost m0 = if ft == EntryType::Patchfile { self.patchfiles.view() } else { self.distfiles.view() };
+        let ghost hv = hash@;
+        proof { lemma_find_key(m0, pab(path)); lemma_find_name(m0, pab(path)); }
+        let map = match filetype {
+            EntryType::Distfile => &mut self.distfiles,
+            EntryType::Patchfile => &mut self.patchfiles,
+        };
+        match map.get_mut(path.as_ref()) {
+            Some(entry) => entry.checksums.push(Checksum { digest, hash }),
+            None => {
+                let v: Vec<Checksum> = vec![Checksum { digest, hash }];
+                map.insert(
+                    path.as_ref().to_path_buf(),
+                    Entry {
+                        filename: path.as_ref().to_path_buf(),
+                        checksums: v,
+                        filetype,
+                        ..Default::default()
+                    },
+                );
+            }
+        };
+        proof {
+            let m1 = if ft == EntryType::Patchfile { self.patchfiles.view() } else { self.distfiles.view() };
+            let i = find_key(m0, pab(path));
+            let want = upd_sum(evs(m0), pab(path), digest, hv, ft);
+            if i >= 0 {
+                assert(m1.len() == m0.len());
+                assert forall|j: int| 0 <= j < m1.len() implies #[trigger] evs(m1)[j] == want[j] by {
+                    if j == i {
+                        assert(sums_v(m1[i].1.checksums@) =~= sums_v(m0[i].1.checksums@).push((digest, hv)));
+                    } else { assert(m1[j] == m0[j]); }
+                }
+            } else {
+                assert(m1 == m0.push(m1[m0.len() as int]));
+                assert forall|j: int| 0 <= j < m1.len() implies #[trigger] evs(m1)[j] == want[j] by {
+                    if j < m0.len() { assert(m1[j] == m0[j]); }
+                    else { assert(sums_v(m1[j].1.checksums@) =~= seq![(digest, hv)]); }
+                }
+            }
+            assert(evs(m1) =~= want);
+        }
+    }
+//@ end
+
+//@ extract src/distinfo.rs : impl Distinfo fn from_bytes
+//@ rewrite D6.split_nl_bytes
+    pub fn from_bytes(bytes: &[u8]) -> (r: Distinfo)
+        ensures r.wf(), r.dv() == parse_distinfo(bytes@)
+    {
+        let mut distinfo = Distinfo::new();
+        let ghost pieces = split_nl(bytes@);
+        for line in it: bytes.split(|c| *c == b'\n')
+            invariant
+                pieces == split_nl(bytes@), it.snapshot@.remaining().len() == pieces.len(),
+                forall|i: int| 0 <= i < pieces.len() ==> (#[trigger] it.snapshot@.remaining()[i])@ == pieces[i],
+                distinfo.wf(),
+                fold_dist(pieces, it.index@ as int, distinfo.dv()) == parse_distinfo(bytes@),
+        {
+            let ghost v0 = distinfo.dv();
+            match Line::from_bytes(line) {
+                Line::RcsId(s) => distinfo.rcsid = Some(s),
+                Line::Size(p, v) => {
+                    distinfo.update_size(&p, v);
+                }
+                Line::Checksum(d, p, s) => {
+                    distinfo.update_checksum(&p, d, s);
+                }
+                Line::None => {}
+            }
+            proof { assert(distinfo.dv() == step_line(v0, line_spec(pieces[it.index@ as int]))); }
+        }
+        distinfo
+    }
+//@ end
+}
+
+/// find_key on the stored keys agrees with find_name on the views (every entry is stored under its own name)
+pub proof fn lemma_find_name(m: Seq<(Seq<u8>, Entry)>, k: Seq<u8>)
+    requires forall|i: int| 0 <= i < m.len() ==> (#[trigger] m[i]).0 == pbb(&m[i].1.filename)
+    ensures find_name(evs(m), k) == find_key(m, k)
+    decreases m.len()
+{
+    if m.len() > 0 {
+        assert(evs(m)[0].name == m[0].0);
+        assert(evs(m).skip(1) =~= evs(m.skip(1)));
+        if pkey(m[0].0) != pkey(k) { lemma_find_name(m.skip(1), k); }
+    }
+}
+
 /// byte-string literals used by Line::from_bytes
 pub proof fn reveal_strlit_bytes() { }
 pub proof fn lemma_nonempty_step(v: Seq<&[u8]>, i: int)
